@@ -9,7 +9,7 @@
   Every `selMatch` clause mirrors the `Match` method of the Go type named beside it, quirks
   included (blank test of `^= $= *=`, `matchInclude` with an empty value, `:root` = any `html`
   element, attribute tests that do not look at the node type, `neverMatchSelector` weighing 0).
-  Not modelled (outside the grammar of the property): `#=`, `:contains*`, `:selMatch*`, `:input`,
+  Not modelled (outside the grammar of the property): `#=`, `:contains*`, `:matches*`, `:input`,
   `:link`, `:lang`, `:enabled`, `:disabled`, `:checked`.
 -/
 namespace WR.C05
@@ -114,6 +114,20 @@ mutual
 end
 
 def Loc.descendants (l : Loc) : List Loc := descNode l.node l.path
+
+mutual
+  /-- every node below one node, in document order (used to enumerate a whole tree) -/
+  def allNode : Node → List Frame → List Loc
+    | .mk k d a cs, fs => allList k d a fs [] cs
+  def allList (k : Kind) (d : Str) (a : List Attr) (fs : List Frame) : List Node → List Node → List Loc
+    | _, [] => []
+    | left, c :: cs =>
+      (⟨c, ⟨k, d, a, left, cs⟩ :: fs⟩ :: allNode c (⟨k, d, a, left, cs⟩ :: fs))
+      ++ allList k d a fs (c :: left) cs
+end
+
+/-- all nodes of the tree rooted at `root` (root first, document order) -/
+def allLocs (root : Node) : List Loc := ⟨root, []⟩ :: allNode root []
 
 /-! ## strings (Go `strings`, `unicode`) -/
 
